@@ -105,8 +105,11 @@ type caseIn struct {
 	GOROOT  string // "" = unset
 	GOCACHE string
 	SelfExe string
-	Reqs    []mountReq
-	Scen    string
+	// HostGo: Go settings exported in the calling process (a corporate proxy, private module
+	// patterns, flags): whatever the host says, the sandbox's module proxy stays off
+	HostGo map[string]string
+	Reqs   []mountReq
+	Scen   string
 	// B
 	Rootfs string // as handed over (may be relative)
 	BCwd   string
@@ -117,32 +120,33 @@ type caseIn struct {
 
 // rec is the replay record: every string that may hold raw bytes is %+q-quoted.
 type rec struct {
-	Monitor  string   `json:"monitor"`
-	Base     string   `json:"base"`
-	Ops      []treeOp `json:"tree,omitempty"`
-	CwdDir   string   `json:"cwd_dir"`
-	PWD      string   `json:"pwd_env"`
-	CwdClass string   `json:"cwd_class"`
-	CwdSeen  string   `json:"cwd_seen_by_getwd"`
-	GOROOT   string   `json:"goroot"`
-	GOCACHE  string   `json:"gocache"`
-	SelfExe  string   `json:"selfexe"`
-	Scen     string   `json:"scenario"`
-	Paths    []string `json:"paths"`
-	Classes  []string `json:"spelling_classes"`
-	ModelAbs []string `json:"model_abs"`
-	Rootfs   string   `json:"rootfs,omitempty"`
-	BCwd     string   `json:"b_cwd,omitempty"`
-	PM       []pmRec  `json:"pmounts,omitempty"`
-	LookFail bool     `json:"lookfail,omitempty"`
-	Observed any      `json:"observed,omitempty"`
+	Monitor  string            `json:"monitor"`
+	Base     string            `json:"base"`
+	Ops      []treeOp          `json:"tree,omitempty"`
+	CwdDir   string            `json:"cwd_dir"`
+	PWD      string            `json:"pwd_env"`
+	CwdClass string            `json:"cwd_class"`
+	CwdSeen  string            `json:"cwd_seen_by_getwd"`
+	GOROOT   string            `json:"goroot"`
+	GOCACHE  string            `json:"gocache"`
+	SelfExe  string            `json:"selfexe"`
+	Scen     string            `json:"scenario"`
+	Paths    []string          `json:"paths"`
+	Classes  []string          `json:"spelling_classes"`
+	ModelAbs []string          `json:"model_abs"`
+	Rootfs   string            `json:"rootfs,omitempty"`
+	BCwd     string            `json:"b_cwd,omitempty"`
+	PM       []pmRec           `json:"pmounts,omitempty"`
+	LookFail bool              `json:"lookfail,omitempty"`
+	HostGo   map[string]string `json:"host_go_env,omitempty"`
+	Observed any               `json:"observed,omitempty"`
 }
 type pmRec struct{ Dest, Type, Source string }
 
 func (in *caseIn) rec(cwdSeen string, observed any) *rec {
 	r := &rec{Monitor: in.Mon, Base: q(in.Base), Ops: in.Ops, CwdDir: q(in.Cwd.Dir), PWD: q(in.Cwd.PWD), CwdClass: in.Cwd.Class,
 		CwdSeen: q(cwdSeen), GOROOT: q(in.GOROOT), GOCACHE: q(in.GOCACHE), SelfExe: q(in.SelfExe), Scen: in.Scen,
-		Rootfs: q(in.Rootfs), BCwd: q(in.BCwd), LookFail: in.LookFail, Observed: observed}
+		Rootfs: q(in.Rootfs), BCwd: q(in.BCwd), LookFail: in.LookFail, HostGo: in.HostGo, Observed: observed}
 	for _, m := range in.Reqs {
 		r.Paths = append(r.Paths, q(m.Path))
 		r.Classes = append(r.Classes, m.Class)
@@ -173,6 +177,49 @@ func setEnv(k, v string) {
 		os.Setenv(k, v)
 	}
 }
+
+var hostGoKeys = []string{"GOPROXY", "GONOPROXY", "GOPRIVATE", "GONOSUMDB", "GOINSECURE", "GOFLAGS", "GOSUMDB", "CGO_ENABLED", "GOTOOLCHAIN"}
+
+// pickHostGo: every third case runs with Go settings exported in the host process.
+func pickHostGo(r *rand.Rand) map[string]string {
+	if r.Intn(3) != 0 {
+		return nil
+	}
+	m := map[string]string{"GOPROXY": []string{"https://proxy.example.org,direct", "direct", "https://proxy.golang.org", "file:///tmp/mirror|direct"}[r.Intn(4)]}
+	if r.Intn(2) == 0 {
+		m["GONOPROXY"], m["GOPRIVATE"] = "*.corp.example", "*.corp.example"
+	}
+	if r.Intn(2) == 0 {
+		m["GOFLAGS"] = "-mod=mod"
+		m["GONOSUMDB"] = "*"
+	}
+	if r.Intn(3) == 0 {
+		m["GOINSECURE"], m["GOSUMDB"] = "*", "off"
+	}
+	return m
+}
+
+// applyHostGo exports m (and un-exports every other key of hostGoKeys it may have set before).
+func applyHostGo(m map[string]string) {
+	for _, k := range hostGoKeys {
+		if v, ok := m[k]; ok {
+			os.Setenv(k, v)
+		} else if hostGoBase[k] == "" {
+			os.Unsetenv(k)
+		} else {
+			os.Setenv(k, hostGoBase[k])
+		}
+	}
+}
+
+// hostGoBase: what the harness process itself was started with.
+var hostGoBase = func() map[string]string {
+	m := map[string]string{}
+	for _, k := range hostGoKeys {
+		m[k] = os.Getenv(k)
+	}
+	return m
+}()
 
 func pickToolchain(r *rand.Rand, t *tree) (goroot, gocache string) {
 	switch k := r.Intn(20); {
@@ -224,6 +271,7 @@ func runBatchA(p *part, root string, b int) {
 			continue
 		}
 		in.GOROOT, in.GOCACHE = pickToolchain(r, t)
+		in.HostGo = pickHostGo(r)
 		in.SelfExe = t.Base + "/n0/f.go"
 		if r.Intn(4) == 0 {
 			in.SelfExe, _ = os.Executable()
@@ -252,6 +300,8 @@ func execA(p *part, in *caseIn) {
 	}
 	setEnv("GOROOT", in.GOROOT)
 	setEnv("GOCACHE", in.GOCACHE)
+	applyHostGo(in.HostGo)
+	defer applyHostGo(nil)
 	hookReset()
 	cfg := sandbox.Config{Args: []string{"internal-worker", "scan"}, WorkDir: cwd}
 	c := &octx{SelfExe: in.SelfExe, Gocache: in.GOCACHE, User: map[string]bool{}}
@@ -591,6 +641,7 @@ func runBatchC(p *part, root string, b int) {
 			continue
 		}
 		in.GOROOT, in.GOCACHE = pickToolchain(r, t)
+		in.HostGo = pickHostGo(r)
 		if r.Intn(2) == 0 {
 			in.Scen = "deep-inputs"
 			for k, n := 0, r.Intn(4); k < n; k++ {
@@ -619,6 +670,8 @@ func execC(p *part, in *caseIn) {
 	}
 	setEnv("GOROOT", in.GOROOT)
 	setEnv("GOCACHE", in.GOCACHE)
+	applyHostGo(in.HostGo)
+	defer applyHostGo(nil)
 	hookReset()
 	hook.lookFail = in.LookFail
 	var inputs []string
